@@ -58,6 +58,8 @@ Rel1(what, names, ids, mp) ==
     /\ Check(tid, 1, "C01:" \o what \o "-id-decodes-to-its-name", \A x \in 1..Len(names) : \E y \in 1..Len(mp) : mp[y] = <<names[x], ids[x]>>)
     /\ Check(tid, 1, "C01:" \o what \o "-ids-dense", DenseSet({ids[x] : x \in 1..Len(ids)}))
     /\ Check(tid, 1, "C01:equal-" \o what \o "-ids-iff-equal-name", \A x, y \in 1..Len(names) : (ids[x] = ids[y]) <=> (names[x] = names[y]))
+\* "followed verbatim": the ids are those of the supplied table and the carried table has exactly its entries (in whatever order)
+SameEntries(a, b) == Len(a) = Len(b) /\ {a[x] : x \in 1..Len(a)} = {b[x] : x \in 1..Len(b)}
 RelOk ==
     /\ RelTreat(T.rows, T.got.ids, T.got.mapping, T.got.nut)
     /\ Rel1("sample", T.samples, T.got.sids, T.got.smap)
@@ -72,8 +74,8 @@ RelOk ==
               ws == Encode1With(ss, ssup)
           IN /\ Check(tid, 2, "C01:supplied-mapping-accepted-iff-dense-and-covering", T.subgot.ok = (w.status = "ok" /\ ws.status = "ok"))
              /\ (T.subgot.ok =>
-                   /\ Check(tid, 2, "C01:supplied-treatment-mapping-followed-verbatim", T.subgot.ids = w.ids /\ T.subgot.mapping = sup)
-                   /\ Check(tid, 2, "C01:supplied-sample-mapping-followed-verbatim", T.subgot.sids = ws.ids /\ T.subgot.smap = ssup)
+                   /\ Check(tid, 2, "C01:supplied-treatment-mapping-followed-verbatim", T.subgot.ids = w.ids /\ SameEntries(T.subgot.mapping, sup))
+                   /\ Check(tid, 2, "C01:supplied-sample-mapping-followed-verbatim", T.subgot.sids = ws.ids /\ SameEntries(T.subgot.smap, ssup))
                    /\ Check(tid, 2, "C01:sizes-from-supplied-mapping-bound-ids", \A i \in IdsIn(T.subgot.ids) : i < T.subgot.nut)))
 
 Decide == Verdict(tid, IF Strict THEN TreatOk ELSE RelOk)
